@@ -119,5 +119,5 @@ Example C20_nonvacuous :
               ("bias", [("quantized_bits(4,0,1)", 4)]); ("activation", [("quantized_relu(4,2)", 4)])]%Z in
   let ch := fun (_ : string) (l : list string) => nth 1 l (hd ""%string l) in
   render_select lims cfg (fun _ _ => false) ch [Ly "d0" "Dense" true AOther; Ly "fl" "Flatten" false ANone] None =
-  ["d0={kernel_quantizer:quantized_bits(4,0,1);bias_quantizer:quantized_bits(4,0,1);activation:quantized_relu(4,2)}"%string].
+  ["d0={kernel_quantizer:quantized_bits(4,0,1);bias_quantizer:quantized_bits(4,0,1);activation_quantizer:quantized_relu(4,2)}"%string].
 Proof. vm_compute. reflexivity. Qed.
